@@ -5,17 +5,24 @@ import searchgen as sg
 
 NEED_RG = True
 MANIFEST = dict(
-    text="Coq theorems: the roll buffer (LineBuffer fill/roll/ensure_capacity/consume) is a faithful window of the stream "
-         "for every read history, capacity and growth policy (nothing lost, duplicated or reordered; searchable part ends "
-         "after a terminator unless the stream is exhausted; never out of fuel), and multi-line mode is irrelevant for a "
-         "matcher that cannot match the terminator. The event-level equality ReadByLine = SliceByLine is NOT yet proved: it "
-         "is checked on every run by model = code (roll buffer fed through a hook with the scripted read history, capacities "
-         "1..65, both growth policies, sink stops) and by the oracle reader events = slice events, plus rg --mmap/--no-mmap/"
-         "stdin. D10 fixed; D8 (byte count of an early-ended reader search) known finding.",
-    note="partial proof: Core::roll's re-basing simulation is tested, not proved; trusted: Coq kernel, extraction, driver, "
-         "harness, hook verif_search_reader_raw/verif_buffer_capacity",
-    technique="Coq proof (stream-window invariant of the roll buffer) + extracted-model/implementation correspondence + cross-strategy oracle",
-    design="§7 C02")
+    text="Coq theorems (Props/C02.v): reader_eq_ref — ReadByLine::run over the roll buffer delivers exactly the events of the grep "
+         "reference for every input, configuration (context sizes, invert, passthru, line numbers, stop-on-nonmatch, any "
+         "terminator), matcher meeting the find_by_line_fast / candidate-line contract, buffer capacity >= 0 and every "
+         "failure-free read history (1-byte reads included): the simulation of C03 carried across Core::roll (re-basing of "
+         "offsets, line numbers, dropped context) and LineBuffer::fill/roll/ensure_capacity/consume; reader_eq_slice(_complete): "
+         "hence the same events as SliceByLine::run, and the same run_result (final byte count too) whenever the search is not cut "
+         "short by stop-on-nonmatch; reader_eq_ref_any_policy (heap limit: equal or allocation error); "
+         "line_buffer_fill_is_stream_window (the buffer is a window of the stream for every history/capacity/policy, fill never "
+         "stuck); multiline_flag_irrelevant. D8 (byte count of an early-ended reader search) is proved to be the only difference "
+         "(n <= reference count; witness early_end_byte_count_witness) and is a known finding. Tie to the code on every run: "
+         "model = code on the real roll buffer fed through a hook with scripted read histories (capacities 1..65, both growth "
+         "policies, sink stops), reader events = slice events = reference, the public search_reader, rg --mmap/--no-mmap/stdin. "
+         "D10 fixed.",
+    note="memory maps are searched as slices (mmap.rs only chooses the strategy; CLI comparison); binary detection off as the "
+         "property says; failing reads are C16's theorems; trusted: Coq kernel, extraction, driver, harness, hooks "
+         "verif_search_reader_raw/verif_buffer_capacity",
+    technique="Coq simulation proof (reader = grep reference = slice, all histories and capacities) + extracted-model/implementation correspondence + cross-strategy oracle",
+    design="§7 C02, notes/C02.md")
 KNOWN_D8 = "EarlyEndByteCount"
 
 
